@@ -5,7 +5,7 @@
 From Coq Require Import List ZArith Bool Sorting.Permutation.
 From FV Require Import Base OutputM Sched.
 From FV Require Info.
-From FVP Require Import Adapters_proofs Sched_proofs Confluence_proofs OutputM_proofs Series_proofs Termination_proofs Order_proofs Trace_proofs Confluence2_proofs Trace2_proofs.
+From FVP Require Import Adapters_proofs Sched_proofs Confluence_proofs OutputM_proofs Series_proofs Termination_proofs Order_proofs Trace_proofs Confluence2_proofs Trace2_proofs Potential_proofs.
 From FVP Require Info_proofs.
 Import ListNotations.
 Open Scope Z_scope.
@@ -191,6 +191,29 @@ Theorem C05_every_order_same_outcome :
           s_cnt st1 c = s_cnt st2 c /\ s_time st1 c = s_time st2 c /\ endt <= s_time st1 c.
 Proof. exact order_independent_total. Qed.
 
+(** The same with the hypothesis in the words of C04: every cycle of the delay graph carries delays summing to at least
+    the sum of its components' largest steps, and pull-based components do not feed each other in a circle
+    (Potential_proofs constructs the potential and the ranking). *)
+Theorem C05_every_order_same_outcome_cycles_covered :
+  forall cs rank endt m prio1 prio2,
+    term_ok cs rank -> nopush cs -> links_ok cs ->
+    (forall u c, c <> [] -> walk (delay_graph cs) u c -> endn u c = u -> wt c <= 0) ->
+    (forall u c, c <> [] -> walk (pull_graph cs) u c -> endn u c = u -> False) ->
+    min_start cs = Some m -> m < endt ->
+    (forall c, (c < length cs)%nat -> In c prio1) ->
+    (forall c, (c < length cs)%nat -> In c prio2) ->
+    forall fuel1 fuel2, (enough_fuel cs endt <= fuel1)%nat -> (enough_fuel cs endt <= fuel2)%nat ->
+      exists st1 acc1 st2 acc2,
+        run_prio prio1 fuel1 cs endt = (OOk, st1, acc1) /\
+        run_prio prio2 fuel2 cs endt = (OOk, st2, acc2) /\
+        forall c, is_time cs c = true ->
+          s_cnt st1 c = s_cnt st2 c /\ s_time st1 c = s_time st2 c /\ endt <= s_time st1 c.
+Proof.
+  intros cs rank endt m prio1 prio2 T NPsh LO NP AC.
+  destruct (cycles_covered_give_sufficient cs LO NP AC) as [phi [rank' S]].
+  exact (C05_every_order_same_outcome cs rank phi rank' endt m prio1 prio2 T NPsh S).
+Qed.
+
 (** ... and the error class: an undelayed cycle among components with a common start time before the end time makes
     EVERY order end with the circular-coupling error. *)
 Theorem C05_every_order_reports_cycle :
@@ -307,3 +330,4 @@ Print Assumptions C05_series_order_independent_with_delay_to_pull.
 Print Assumptions C05_block_is_local.
 Print Assumptions C05_every_order_same_outcome.
 Print Assumptions C05_every_order_reports_cycle.
+Print Assumptions C05_every_order_same_outcome_cycles_covered.
